@@ -48,6 +48,17 @@ Theorem C09_yield_consistent : forall (Yf dYf : R -> R) (mu tol : R), 0 < mu -> 
   (s - 3 * mu * d) - Yf (eo + d) <= tol /\ (0 < d -> Rabs ((s - 3 * mu * d) - Yf (eo + d)) <= tol).
 Proof. exact yield_consistent. Qed.
 
+(* the elastic-branch threshold of the yield test must be the root tolerance: with a threshold thr the overstress left after a step
+   is bounded by max(thr, tol); thr = tol is the model (first clause), a larger threshold leaves states outside the yield surface
+   by thr > tol (third clause) *)
+Theorem C09_elastic_threshold_is_root_tolerance : forall (Yf dYf : R -> R) (mu tol : R), 0 < mu -> 0 <= tol ->
+  (forall s eo, delta_thr Yf dYf mu tol tol s eo = @delta_eqps_gen R NumR Yf dYf mu tol s eo) /\
+  (forall thr s eo d, (tol < s - Yf eo -> Yf eo <= Yf (eo + (s - Yf eo) / (3 * mu))) ->
+     delta_thr Yf dYf mu tol thr s eo = Some d -> (s - 3 * mu * d) - Yf (eo + d) <= Rmax thr tol) /\
+  (forall thr eo, tol < thr ->
+     delta_thr Yf dYf mu tol thr (Yf eo + thr) eo = Some 0 /\ tol < (Yf eo + thr - 3 * mu * 0) - Yf (eo + 0)).
+Proof. exact elastic_threshold. Qed.
+
 (* variational: with convex hardening the (approximately) stationary point minimises the incremental potential over eqps >= eqps_old *)
 Theorem C09_variational : forall (Hf Yf : R -> R) (mu s eo : R), 0 < mu -> forall es delta : R,
   (forall x, eo <= x -> is_derive Hf x (Yf x)) -> (forall x y, eo <= x -> x <= y -> Yf x <= Yf y) -> eo <= es ->
@@ -87,7 +98,9 @@ Theorem C09_power_law_monotone : forall Y0 n eps0, 0 <= Y0 -> 0 < n -> 0 < eps0 
 Proof. exact power_flow_monotone. Qed.
 
 (* NOT PROVED: (a) "the update never returns NaN" -- false of the faithful model: the C17 root finder can hit its iteration cap
-   (C17_cap_refuted, finding F7); every theorem above is conditional on `= Some d`.  (b) the rate-sensitivity potential's
+   (C17_cap_refuted, finding F7; inside the J2 update: F13); every theorem above is conditional on `= Some d`.  Flat hardening
+   (perfect plasticity, saturated Voce) is NOT excluded: there the residual at the upper bracket end is within the tolerance and
+   the repaired root finder returns that end (C17_result_contract, end-point rule; finding F12 fixed by 8aadfbe).  (b) the rate-sensitivity potential's
    derivative/monotonicity (same shape as the power law; covered by the correspondence only).  (c) the equivalence of the scalar
    history with the tensor history for finite-deformation kinematics (logarithmic strain, exp_symm push-forward) -- needs the
    spectral tensor functions; C09_isochoric assumes Jacobi's formula for exp_symm; tied by L2 on the code.  (d) equality of
